@@ -180,6 +180,8 @@ class NP:
 
     @staticmethod
     def sign(x):
+        if isinstance(getattr(x, "r", None), R):      # dtmodel.SF / SI
+            x = x.r
         if isinstance(x, (R, Dual)):
             if x > 0:
                 return 1
